@@ -52,6 +52,12 @@ func VerifC05Principals() {
 	vAssume(verifPrincipalsSpec(invIss, invSub, ch.links))
 	inv := verifInvocation(invIss, invSub, did.Undef, command.Top(), nil, ch.cids, nil)
 	verifIrrelevant(inv, base)
+	if vChoose("checked_before", 2) == 1 {
+		// the same token was checked earlier, when a delegation was not yet available
+		none := ch.loader()
+		none.ok[vChoose("missing_then", n)] = false
+		_ = inv.ExecutionAllowed(none)
+	}
 	err := inv.ExecutionAllowed(ch.loader())
 	vReach("conforming")
 	vAssert(err == nil, "a chain conforming to the principal rules was denied")
